@@ -108,7 +108,14 @@ func formatArrayTypeName(v string) string {
 
 //ExtractValue info
 func ExtractValue(v reflect.Value, extractor ValueExtractor) {
-	v = RawValue(v)
+	// a nil pointer still tells which type it can point to: describe a fresh value of that type, as is done
+	// for the element type of an empty slice or map
+	for v.Kind() == reflect.Ptr {
+		if v.IsNil() {
+			v = reflect.New(v.Type().Elem())
+		}
+		v = v.Elem()
+	}
 
 	if !extractor(v) {
 		return
@@ -181,6 +188,10 @@ func FetchType(typ reflect.Type, typMap map[string]reflect.Type) {
 		return
 	}
 
+	if _, ok := typMap[typ.Name()]; ok {
+		// already visited: self-referential and mutually recursive types end here
+		return
+	}
 	typMap[typ.Name()] = typ
 	for i := 0; i < typ.NumField(); i++ {
 		FetchType(typ.Field(i).Type, typMap)
